@@ -12,6 +12,7 @@ install_demo() {
     task_tests)  F=rodbus/src/client/task.rs; sed -i '$ d' "$F" && cat "$OUT/demo$N.rs" >> "$F" && echo '}' >> "$F" ;;
     frame_tests) F=rodbus/src/serial/frame.rs; sed -i '$ d' "$F" && cat "$OUT/demo$N.rs" >> "$F" && echo '}' >> "$F" ;;
     ffi_tests) mkdir -p ffi/rodbus-ffi/tests && cp "$OUT/demo$N.rs" "ffi/rodbus-ffi/tests/$FILTER.rs" ;;
+    ffi_append) cat "$OUT/demo$N.rs" >> ffi/rodbus-ffi/src/lib.rs ;;
     append_task) cat "$OUT/demo$N.rs" >> rodbus/src/client/task.rs ;;
     rodbus_tests) mkdir -p rodbus/tests && cp "$OUT/demo$N.rs" "rodbus/tests/$FILTER.rs" ;;
     lib_mod) cp "$OUT/demo$N.rs" "rodbus/src/${FILTER}.rs" && echo "#[cfg(test)] mod ${FILTER};" >> rodbus/src/lib.rs ;;
@@ -21,6 +22,7 @@ run_demo() {
   case "$MODE" in
     rodbus_tests) cargo test -q -p rodbus --offline ${FEAT:+--features $FEAT} --test "$FILTER" 2>&1 | tail -5 ;;
     ffi_tests) cargo test -q -p rodbus-ffi --offline --test "$FILTER" 2>&1 | tail -5 ;;
+    ffi_append) cargo test -q -p rodbus-ffi --offline "$FILTER" 2>&1 | tail -5 ;;
     *) cargo test -q -p rodbus --lib --offline "$FILTER" 2>&1 | tail -5 ;;
   esac
 }
